@@ -251,11 +251,23 @@ def build_harness(race=False):
 # running model and implementation
 
 
+def _big_stack():
+    """the extracted model recurses structurally (not tail-recursively) over the input"""
+    import resource
+    try:
+        soft, hard = resource.getrlimit(resource.RLIMIT_STACK)
+        want = hard if hard != resource.RLIM_INFINITY else resource.RLIM_INFINITY
+        resource.setrlimit(resource.RLIMIT_STACK, (want, hard))
+    except Exception:
+        pass
+
+
 def run_lines(tool, sub, lines, timeout=1800):
     """feed lines to `tools/<tool> [sub]`, return output lines"""
     cmd = [os.path.join(TOOLS, tool)] + ([sub] if sub else [])
     data = "\n".join(lines) + "\n"
-    p = subprocess.run(cmd, input=data, stdout=subprocess.PIPE, stderr=subprocess.PIPE, text=True, timeout=timeout)
+    p = subprocess.run(cmd, input=data, stdout=subprocess.PIPE, stderr=subprocess.PIPE, text=True, timeout=timeout,
+                       preexec_fn=_big_stack if tool == "modelrun" else None)
     if p.returncode != 0:
         raise RuntimeError("%s failed (%d): %s" % (cmd, p.returncode, p.stderr[-2000:]))
     out = p.stdout.split("\n")
@@ -320,6 +332,13 @@ class Result:
         self.assumptions = []
         self._distinct = set()
         self.notes = {}
+        # stale replay files of earlier runs of this property must not be mistaken for this run's
+        try:
+            for fn in os.listdir(REPLAY):
+                if fn.startswith(pid + "_") and fn.endswith(".json"):
+                    os.remove(os.path.join(REPLAY, fn))
+        except FileNotFoundError:
+            pass
 
     def count(self, n=1):
         self.coverage["evaluations"] += n
